@@ -94,6 +94,50 @@ type Exec struct {
 }
 
 func newExec(prog *Program, pkg *packages.Package) *Exec {
+	x := newExec0(prog, pkg)
+	x.preRegisterOwned()
+	return x
+}
+
+// preRegisterOwned makes the heap keys of every lock-owned field and map known before any statement runs,
+// so that the snapshots taken at Lock/Unlock are complete whichever fields the body happens to touch first.
+func (x *Exec) preRegisterOwned() {
+	if x.prog.Contracts == nil || len(x.prog.Contracts.Owned) == 0 {
+		return
+	}
+	owned := x.prog.Contracts.Owned
+	scope := x.pkg.Types.Scope()
+	for _, name := range scope.Names() {
+		tn, ok := scope.Lookup(name).(*types.TypeName)
+		if !ok {
+			continue
+		}
+		st, ok := tn.Type().Underlying().(*types.Struct)
+		if !ok {
+			continue
+		}
+		for i := 0; i < st.NumFields(); i++ {
+			f := st.Field(i)
+			if _, isOwned := owned[tn.Name()+"."+f.Name()]; isOwned {
+				func() {
+					defer func() { recover() }() // field types the value model does not cover are simply not pre-registered
+					x.fieldKey(tn.Type(), f)
+				}()
+			}
+			if mt, isMap := f.Type().Underlying().(*types.Map); isMap {
+				func() {
+					defer func() { recover() }()
+					base := "m:" + typeKey(mt.Key()) + ":" + typeKey(mt.Elem())
+					if _, isOwned := owned[base]; isOwned {
+						x.mapKeys(mt)
+					}
+				}()
+			}
+		}
+	}
+}
+
+func newExec0(prog *Program, pkg *packages.Package) *Exec {
 	return &Exec{prog: prog, pkg: pkg, info: pkg.TypesInfo, vc: newVC(), heapBase: map[string]Value{}, heapMakers: map[string]func() Value{},
 		ord: map[string]int{}, abstractions: map[string]bool{}, catParts: map[string][2]Term{}, mayWriteCache: map[string]map[string]bool{},
 		mayWriteBusy: map[string]bool{}, modeFlags: map[string]bool{}, specDecls: map[string]bool{}, ghostLocalSorts: map[string]*Sort{}, atReturnHits: map[*Clause]int{}}
@@ -286,7 +330,13 @@ func (x *Exec) stmt(s ast.Stmt, st *State) {
 	case *ast.DeferStmt:
 		if len(s.Call.Args) != 0 {
 			if _, isLit := s.Call.Fun.(*ast.FuncLit); !isLit {
-				x.unsupported(s, "defer with arguments")
+				// arguments are evaluated when the defer statement runs; evaluating them when the call runs is
+				// the same thing only if nothing can change them in between
+				for _, a := range s.Call.Args {
+					if !x.stableExpr(a) {
+						x.unsupported(s, "defer with arguments")
+					}
+				}
 			}
 		}
 		d := len(st.defers) - 1
@@ -603,6 +653,78 @@ func (x *Exec) doReturn(st *State, vals []Value) {
 	st.dead = true
 }
 
+// stableExpr: a constant, or a chain of immutable fields rooted at a parameter or receiver that the function never assigns.
+func (x *Exec) stableExpr(e ast.Expr) bool {
+	e = unparen(e)
+	if tv, ok := x.info.Types[e]; ok && tv.Value != nil {
+		return true
+	}
+	switch v := e.(type) {
+	case *ast.Ident:
+		obj, ok := x.info.Uses[v].(*types.Var)
+		if !ok || obj.IsField() {
+			return false
+		}
+		fr := x.frame()
+		if fr == nil || fr.sig == nil {
+			return false
+		}
+		isParam := fr.sig.Recv() == obj
+		for i := 0; i < fr.sig.Params().Len(); i++ {
+			if fr.sig.Params().At(i) == obj {
+				isParam = true
+			}
+		}
+		if !isParam || fr.fi == nil || fr.fi.Decl == nil || fr.fi.Decl.Body == nil {
+			return false
+		}
+		assigned := false
+		ast.Inspect(fr.fi.Decl.Body, func(n ast.Node) bool {
+			switch st := n.(type) {
+			case *ast.AssignStmt:
+				for _, l := range st.Lhs {
+					if id, ok := unparen(l).(*ast.Ident); ok && x.info.ObjectOf(id) == obj {
+						assigned = true
+					}
+				}
+			case *ast.IncDecStmt:
+				if id, ok := unparen(st.X).(*ast.Ident); ok && x.info.ObjectOf(id) == obj {
+					assigned = true
+				}
+			case *ast.UnaryExpr:
+				if id, ok := unparen(st.X).(*ast.Ident); ok && st.Op == token.AND && x.info.ObjectOf(id) == obj {
+					assigned = true
+				}
+			}
+			return true
+		})
+		return !assigned
+	case *ast.SelectorExpr:
+		sel := x.info.Selections[v]
+		if sel == nil || sel.Kind() != types.FieldVal {
+			return false
+		}
+		// every field on the (possibly embedded) path must be immutable after construction
+		t := sel.Recv()
+		for _, i := range sel.Index() {
+			if p, ok := t.Underlying().(*types.Pointer); ok {
+				t = p.Elem()
+			}
+			stt, ok := t.Underlying().(*types.Struct)
+			if !ok {
+				return false
+			}
+			f := stt.Field(i)
+			if !x.prog.Contracts.Immutable[structName(t)+"."+f.Name()] {
+				return false
+			}
+			t = f.Type()
+		}
+		return x.stableExpr(v.X)
+	}
+	return false
+}
+
 func (x *Exec) runDeferred(d *deferRec, st *State) {
 	if lit, ok := d.call.Fun.(*ast.FuncLit); ok {
 		// deferred closure: run its body in a nested frame
@@ -748,7 +870,20 @@ func (x *Exec) dryRun(st *State, f func(s *State) []*State) (vars map[types.Obje
 	for k, v := range x.ord {
 		savedOrd[k] = v
 	}
+	// a labelled break/continue inside the dry run may target an enclosing loop: those exit states belong to
+	// the dry run (their terms are declared inside the truncated window) and must not reach the real loop
+	type lcLen struct{ b, c int }
+	lcLens := make([]lcLen, len(x.loops))
+	for i, lc := range x.loops {
+		lcLens[i] = lcLen{len(lc.breaks), len(lc.conts)}
+	}
 	defer func() {
+		for i, lc := range savedLoops {
+			if i < len(lcLens) {
+				lc.breaks = lc.breaks[:lcLens[i].b]
+				lc.conts = lc.conts[:lcLens[i].c]
+			}
+		}
 		x.vc.silent--
 		x.dryDepth--
 		x.vc.decls = x.vc.decls[:nd]
@@ -1202,11 +1337,13 @@ type loopEnvT struct {
 	loopIdxKey string
 	visitedKey string
 	loopVar    types.Object
+	entry      *State
 }
 
 func (le *loopEnvT) at(st *State) *SpecEnv {
 	e := *le.base
 	e.st = st
+	e.loopEntry = le.entry
 	e.loopIdxKey = le.loopIdxKey
 	e.visitedKey = le.visitedKey
 	e.loopVar = le.loopVar
@@ -1214,7 +1351,7 @@ func (le *loopEnvT) at(st *State) *SpecEnv {
 }
 
 func (x *Exec) loopEnv(st *State) *loopEnvT {
-	return &loopEnvT{base: x.frameEnv(st)}
+	return &loopEnvT{base: x.frameEnv(st), entry: st.clone()}
 }
 
 // findLoopVar: the unique local mentioned in the loop condition and assigned in the loop.
